@@ -709,7 +709,8 @@ class LazyIndexMap(Encoding):
         return self._data.gather_nd(self._to_base_indices(indices))
 
     def get_value(self, index):
-        return self._data[tuple(self._to_base_indices(index))]
+        index = np.reshape(np.asanyarray(index), (1, -1))
+        return self._data.get_value(self._to_base_indices(index)[0])
 
 
 class FlattenedEncoding(LazyIndexMap):
@@ -872,9 +873,6 @@ class TransposedEncoding(LazyIndexMap):
 
     def mask(self, mask):
         return self._data.mask(mask.transpose(self._inv_perm)).transpose(self._perm)
-
-    def get_value(self, index):
-        return self._data[tuple(self._base_indices(index))]
 
     @property
     def data(self):
